@@ -811,6 +811,31 @@ pub fn inject(kind: &str, kv: &KV) -> Box<dyn Inst> {
         "differentiate" => {
             Box::new(Differentiate::<Q>::from_guts(signalo_filters::differentiate::State { value: kv_oq(kv, "value") }))
         }
+        "mean" => with_n!(kv_n(kv, "N"), N => {
+            let mut taps: CircularBuffer<N, Q> = CircularBuffer::default();
+            for t in kv_qs(kv, "taps") { taps.push_back(t); }
+            let st = signalo_filters::mean::mean::State { mean: kv_oq(kv, "mean"), taps, weight: kv_q(kv, "weight") };
+            Box::new(Mean::<Q, N>::from_guts(st)) as Box<dyn Inst>
+        }),
+        "emedian" => {
+            let cfg = EmedConfig {
+                pre: EmaConfig { inverse_width: kv_q(kv, "pre") },
+                mid: kv_q(kv, "mid"),
+                post: EmaConfig { inverse_width: kv_q(kv, "post") },
+            };
+            let st = signalo_filters::median::exp::State {
+                mean_pre: Ema::<Q>::from_guts((
+                    EmaConfig { inverse_width: kv_q(kv, "pre") },
+                    signalo_filters::mean::exp::mean::State { mean: kv_oq(kv, "spre") },
+                )),
+                mean_post: Ema::<Q>::from_guts((
+                    EmaConfig { inverse_width: kv_q(kv, "post") },
+                    signalo_filters::mean::exp::mean::State { mean: kv_oq(kv, "spost") },
+                )),
+                median: kv_oq(kv, "median"),
+            };
+            Box::new(Emed::<Q>::from_guts((cfg, st)))
+        }
         // a tap ring filled by hand to any level (reachable only through the public state + `from_guts`): the filter
         // tops it up with the current sample before it convolves / delays
         "convolve" => {
